@@ -82,6 +82,7 @@ def run(repo, rep, tier):
     staging_keywords_cannot_collide(repo, rep)
     toyaml_returns_plain_values(repo, rep)
     maxlen_is_an_int(repo, rep)
+    message_data_is_used_type_agnostically(repo, rep)
     from .c02 import operation_envelopes_agree
     operation_envelopes_agree(repo, rep, 'C19.R10', 'finally')
     ops = operations(repo)
@@ -1055,3 +1056,116 @@ def maxlen_is_an_int(repo, rep):
                                 % (norm(v, 40), norm(st.targets[0])))
     if n < 2:
         raise AnalysisError('C19.R15: only %d stores into *_maxlen' % n)
+
+
+def message_data_is_used_type_agnostically(repo, rep):
+    """C19.R16: `request_data` / `response_data` of the pywbem exceptions
+    are documented as strings, but the operations store the raw reply in
+    them (`exce.response_data = self.last_raw_reply`: bytes) while the HTTP
+    layer passes `resp.text` (str).  Code that reads them therefore must
+    work for both: interpolation, None / truth tests, len() and slicing do;
+    concatenation with a literal, %-formatting and str-only or bytes-only
+    methods do not.  The exception text is built when an observer formats
+    the exception (LogOperationRecorder in the `finally` of every
+    operation): a str-only expression in `__str__` turns a parse error of a
+    real connection into TypeError only when the API logger is on."""
+    r = rep.rule('C19.R16', 'request_data / response_data of exceptions are '
+                 'read in ways that work for bytes and for str')
+    ATTRS = ('request_data', 'response_data', '_request_data',
+             '_response_data')
+    # premise: a bytes source and a str source both exist
+    ops = repo.module('pywbem/_cim_operations.py')
+    bytes_src = any(
+        isinstance(n, ast.Assign) and
+        isinstance(n.targets[0], ast.Attribute) and
+        n.targets[0].attr in ATTRS and 'raw' in norm(n.value)
+        for f in ops.all_funcs() for n in walk_no_nested(f.node))
+    if not bytes_src:
+        r.notes.append('the operations no longer store the raw reply in '
+                       'the exception: the attributes have one type, '
+                       'nothing to check')
+        return
+    nfun = 0
+    for m in repo.modules.values():
+        if not m.relpath.startswith('pywbem/'):
+            continue
+        for f in m.all_funcs():
+            nfun += 1
+            parent = {}
+            for n in ast.walk(f.node):
+                for c in ast.iter_child_nodes(n):
+                    parent[c] = n
+            # locals that are plain copies of the attribute
+            names = set()
+            for n in walk_no_nested(f.node):
+                if isinstance(n, ast.Assign) and len(n.targets) == 1 and \
+                        isinstance(n.targets[0], ast.Name) and \
+                        isinstance(n.value, ast.Attribute) and \
+                        n.value.attr in ATTRS:
+                    names.add(n.targets[0].id)
+            for n in walk_no_nested(f.node):
+                is_read = (isinstance(n, ast.Attribute) and
+                           n.attr in ATTRS and
+                           isinstance(n.ctx, ast.Load)) or \
+                    (isinstance(n, ast.Name) and n.id in names and
+                     isinstance(n.ctx, ast.Load))
+                if not is_read:
+                    continue
+                # climb through slices: a slice of bytes/str has the
+                # type of the whole
+                cur = n
+                p_ = parent.get(cur)
+                while isinstance(p_, ast.Subscript) and p_.value is cur \
+                        and isinstance(p_.slice, ast.Slice):
+                    cur, p_ = p_, parent.get(p_)
+                bad = None
+                if isinstance(p_, ast.BinOp) and \
+                        not isinstance(p_.op, ast.Mult):
+                    other = p_.right if p_.left is cur else p_.left
+                    if isinstance(p_.op, ast.Mod) and p_.right is cur:
+                        bad = None      # '...%s' % data: interpolation
+                    elif isinstance(other, (ast.Constant, ast.JoinedStr)):
+                        bad = 'combined with a %s literal by %s' % (
+                            type(getattr(other, 'value', '')).__name__
+                            if isinstance(other, ast.Constant) else 'str',
+                            type(p_.op).__name__)
+                    else:
+                        bad = 'operand of %s' % type(p_.op).__name__
+                elif isinstance(p_, ast.AugAssign) and p_.target is cur:
+                    bad = 'augmented assignment'
+                elif isinstance(p_, ast.Attribute) and p_.value is cur and \
+                        isinstance(parent.get(p_), ast.Call) and \
+                        parent[p_].func is p_:
+                    bad = 'method .%s() called on it' % p_.attr
+                elif isinstance(p_, ast.Compare) and any(
+                        isinstance(o, (ast.In, ast.NotIn)) for o in p_.ops) \
+                        and any(isinstance(x, ast.Constant) and
+                                isinstance(x.value, (str, bytes))
+                                for x in [p_.left] + p_.comparators):
+                    bad = 'membership test with a literal'
+                if bad:
+                    # an isinstance() fact on the value makes it typed
+                    facts = stmt_facts(f.node)
+                    st = cur
+                    while st is not None and not isinstance(st, ast.stmt):
+                        st = parent.get(st)
+                    fs = facts.get(st, ((), ()))[0] if st is not None else ()
+                    if any(isinstance(t, ast.Call) and
+                           dotted(t.func) == 'isinstance' and pol and
+                           norm(t.args[0]) == norm(n) for t, pol in fs):
+                        bad = None
+                r.sites += 1
+                r.functions.add(f.fq)
+                r.ob(not bad, '%s|%s' % (f.qualname, norm(parent.get(n, n),
+                                                          60)))
+                if bad:
+                    rep.finding(r, f.qualname, norm(p_, 70),
+                                'type-specific-use', f.file, n.lineno,
+                                '%s holds bytes (raw reply stored by the '
+                                'operations) or str (HTTP layer, '
+                                'documentation), and is %s: that fails for '
+                                'one of the two, and only when an observer '
+                                'formats the exception'
+                                % (norm(n), bad))
+    if nfun < 500:
+        raise AnalysisError('C19.R16: only %d functions scanned' % nfun)
